@@ -149,6 +149,9 @@ func TestC02(t *testing.T) {
 		keys := []*hello.Key{sc.Key}
 		withDebug = rapid.Bool().Draw(t, "with_debug")
 		defer func() { withDebug, debugHook = false, nil }()
+		if rapid.IntRange(0, 2).Draw(t, "server_builds_its_options_once") > 0 {
+			defer reuseOptions()()
+		}
 		if withDebug && rapid.Bool().Draw(t, "other_connection_from_debug_callback") {
 			// while one hello is being examined the server takes in another connection
 			// carrying the authentic hello: connections share nothing
@@ -431,6 +434,8 @@ func TestC02(t *testing.T) {
 			if err != nil || !cy.ECHAccepted() {
 				ev.Violation(t, "C02", map[string]any{"keys": keysReplay([]*hello.Key{ck}), "client_stream": hx(hello.Record(22, sc.RecVer, my)), "expect": "accept_exact", "want_inner_msg": hx(sc.WantInner)}, "hello sealed with an offered suite of a two-KDF config is not accepted: %v", err)
 			}
+			// and once more now that a connection was accepted through the very same Option values
+			withKeys([]*hello.Key{ck}, "sub:suite_not_offered", fmt.Sprintf("after an accepted connection served with the same options: the client used suite (1,%d) but the config offers only (1,%d) and (2,%d)", b, a, b), hello.Record(22, sc.RecVer, mx))
 		}
 		// ---- structural alterations: the hello stays a well-formed ClientHello (all
 		// enclosing lengths are recomputed) but is no longer the one the client sealed
